@@ -28,8 +28,8 @@ pub struct TreeCase {
     pub enumerate: bool,
 }
 
-const NAMES: &[&str] = &["a", "b", "index", "my note", "\u{fc}ber", "n1", "todo list", "x_y"];
-const DIRS: &[&str] = &["", "", "d", "d/e", "my dir", "g"];
+const NAMES: &[&str] = &["a", "b", "index", "my note", "\u{fc}ber", "n1", "todo list", "x_y", "v1.2", "2024.01.03", "release-v1"];
+const DIRS: &[&str] = &["", "", "d", "d/e", "my dir", "g", "v2.0"];
 
 static COUNTER: std::sync::atomic::AtomicU64 = std::sync::atomic::AtomicU64::new(0);
 
